@@ -4,12 +4,14 @@ what the change needs in order to manifest, how it was confirmed, and which chec
 import json, os, shutil, sys, glob, re
 
 res = {}
+hist = {}
 if os.path.exists("/tmp/seed_results.txt"):
     for l in open("/tmp/seed_results.txt"):
-        m = re.match(r"(C\d+)/(\d) rc=(\d+) (\d+) violations; (.*)", l.strip())
+        m = re.match(r"(C\d+)/(\d+) rc=(\d+) (\d+) violations; (.*)", l.strip())
         if m:
             res[(m.group(1), m.group(2))] = {"check_exit": int(m.group(3)), "violations": int(m.group(4)), "keys": re.findall(r"key: (\S+)", m.group(5))}
-for d in sorted(glob.glob("/tmp/mut-out/C*/[0-9]")):
+            hist.setdefault((m.group(1), m.group(2)), []).append("exit %s, %s violations" % (m.group(3), m.group(4)))
+for d in sorted(glob.glob("/tmp/mut-out/C*/[0-9]*")):
     pid, n = d.split("/")[-2:]
     cf = d + "/confirm.json"
     if not os.path.exists(cf):
@@ -41,5 +43,8 @@ for d in sorted(glob.glob("/tmp/mut-out/C*/[0-9]")):
         "check_result": ({"cmd": "tools/try_seeded.sh seeded/%s-%s/patch.diff %s quick" % (pid, n, pid), "detected": r["check_exit"] == 1 and r["violations"] > 0,
                           "violation_keys": r["keys"]} if r else "not run yet"),
     }
+    if len(hist.get((pid, n), [])) > 1:
+        m2["check_runs_in_order"] = hist[(pid, n)]
+        m2["note"] = "first missed by the quick check; the check was strengthened (see DESIGN.md section 12) and now detects it"
     json.dump(m2, open(out + "/meta.json", "w"), indent=1)
     print("saved", out, "detected" if r and r["check_exit"] == 1 else r)
